@@ -19,6 +19,18 @@ def watched(fn, seconds=12):
     signal.setitimer(signal.ITIMER_PROF, seconds)
     signal.alarm(int(seconds * 20))
     try:
+        return _watched_inner(fn)
+    except Hang:          # the timer fired while the timers were being disarmed
+        return ("hang",)
+    finally:
+        signal.setitimer(signal.ITIMER_PROF, 0)
+        signal.alarm(0)
+        signal.signal(signal.SIGPROF, old)
+        signal.signal(signal.SIGALRM, old2)
+
+
+def _watched_inner(fn):
+    try:
         v = fn()
         return ("ok", v)
     except Hang:
@@ -34,8 +46,6 @@ def watched(fn, seconds=12):
     finally:
         signal.setitimer(signal.ITIMER_PROF, 0)
         signal.alarm(0)
-        signal.signal(signal.SIGPROF, old)
-        signal.signal(signal.SIGALRM, old2)
 
 
 def fx(v, scale=256):
